@@ -81,6 +81,10 @@ ALPHA = {
         "r": [ABSENT, None, False, True],
         "f": [ABSENT, None, 1.5, -2.0, 2],    # 2: a number written without a decimal point among decimal numbers
     },
+    # floats of particular value next to a missing one: a negative zero, whole numbers far beyond the int64 range
+    "fx": {"f": [ABSENT, None, -0.0, 1e300, -18446744073709551616.0, 2.0]},
+    # properties named like methods of dict (statistics / key-value exports are full of them)
+    "dictnames": {"values": [ABSENT, None, 0], "items": [ABSENT, "", "a"], "keys": [ABSENT, None, False], "get": [ABSENT, None, 1.5]},
 }
 KEYS = ["p", "q", "r", "f"]
 
@@ -166,6 +170,9 @@ def shards(tier):
     if tier == "thorough":
         out += [feat(KEYS, "full", 2, j, 96) for j in range(96)]
     out += [feat([k], "full", 3) for k in KEYS]
+    out.append(feat(["f"], "fx", 2 if tier == "quick" else 3))
+    out.append(feat(["values", "items", "keys", "get"], "dictnames", 1))
+    out += [feat(["values", "items", "keys", "get"], "dictnames", 2, j, 9) for j in range(9)]
     out.append({"part": "kwargs", "tier": tier})
     from mc import harness
     out = harness.with_hash_seeds(out, tier, lambda sh: sh["part"] == "kwargs" or (sh["part"] == "feat" and sh["n"] <= 1))
